@@ -233,7 +233,7 @@ def main(tier, seed):
     cov["exhaustive"] = cov["exhaustive"] and hr.capped is None
     cov["rule"] = ("hardware: all trigger-mode assignments for 0-3 sources (thorough: 4), full BFS, every "
                    "(inputs, enable, clear) letter; EventMap: call histories to fixpoint")
-    return finish(PID, tier, seed, "model_checking", cov, ASSUMPTIONS, t0, results, extra)
+    return finish(PID, tier, seed, "model_checking", cov, ASSUMPTIONS, t0, results, extra, min_explored=int(0.9 * len(results)))
 
 
 ASSUMPTIONS = [
